@@ -29,6 +29,9 @@ CLAIMED = {
    text="Lean theorems: PA-data hint selection equals the RFC 4120 5.2.7.5 precedence and is order independent (with the unrepaired loop refuted by witness); des3 random-to-key always yields odd parity bytes with the input's top 7 bits and never a weak key; UTF-16LE encoding injective on scalar values; s2kparams are exactly 4 big-endian octets; regenerated key/seed sizes equal the RFC sizes. String-to-key, n-fold (arithmetic definition), DR/DK, KDF-HMAC-SHA2, random-to-key values are compared with Go for the property's whole quantifier.",
    note=CRYPTO_NOTE + "n-fold: the Lean definition is arithmetic (ones'-complement sum of rotated copies) and is compared with the Go bit loop on every length 1..64 x 6 sizes; their equality is not proved.",
    technique="Lean 4 proof (finite case analysis, kernel decide over all 256 bytes / 16 weak keys, induction) + differential key values", design="5/C08"),
+ "C17": dict(
+   text="Lean theorems over a model of wrapToken.go/MICToken.go: Marshal equals the RFC 4121 4.2.6 layout; Unmarshal(Marshal t) = t; for ALL byte strings a successful decode implies token id, filler and direction flag are the expected ones; Verify is true exactly when the checksum equals the RFC checksum over payload||header(flags, seq, EC=RRC=0); the checksummed string determines payload, flags and sequence number, so accepting after any of them changed exhibits a checksum collision. Tied to Go by byte comparison of built tokens (independent Lean implementation) and by every bit flip / truncation / direction mismatch / changed field.",
+   note=CRYPTO_NOTE, technique="Lean 4 proof (layout, decode strictness for all inputs, injectivity of the MAC input) + differential token bytes and exhaustive mutations", design="5/C17"),
  "C14": dict(
    text="Lean theorems over a model of keytab.go: Unmarshal reads every file an independent writer (MIT format) renders — holes, with/without 32-bit kvno, v1/v2, both byte orders — to exactly the written entries (reads_spec); Marshal equals that writer (marshal_is_render) hence round trip for both versions (roundtrip); GetEncryptionKey is sound, complete and prefers the newest match (lookup_*). All for unbounded sizes. The model is tied to the Go code by differential runs on rendered, re-marshalled, mutated files and present/near-miss lookups.",
    note="Model written by hand (Impl follows Unmarshal incl. the discarded parsePrincipal error); v1 byte order is the host's (little endian here). External: encoding/binary.",
